@@ -975,10 +975,14 @@ pub struct BurstVsPaced {
     pub requests: usize,
     /// ms the application waits before its first recv in the burst run
     pub app_delay_ms: u64,
+    /// true: one application thread per request, each blocked in recv() before the client sends
+    /// anything and each taking exactly one request
+    #[serde(default)]
+    pub one_shot_receivers: bool,
 }
 
 pub fn c13_burst_strategy() -> BoxedStrategy<BurstVsPaced> {
-    (any::<bool>(), prop_oneof![Just(3usize), Just(9usize), Just(12usize), Just(20usize), Just(40usize)], prop_oneof![Just(0u64), Just(30u64), Just(80u64)]).prop_map(|(tcp, requests, app_delay_ms)| BurstVsPaced { tcp, requests, app_delay_ms }).boxed()
+    (any::<bool>(), prop_oneof![Just(3usize), Just(9usize), Just(12usize), Just(20usize), Just(40usize)], prop_oneof![Just(0u64), Just(30u64), Just(80u64)]).prop_map(|(tcp, requests, app_delay_ms)| BurstVsPaced { tcp, requests: if app_delay_ms == 30 { requests.min(12) } else { requests }, app_delay_ms, one_shot_receivers: app_delay_ms == 30 }).boxed()
 }
 
 fn c13_burst_run(c: &BurstVsPaced, paced: bool) -> Option<(Vec<String>, Vec<u16>)> {
@@ -990,6 +994,9 @@ fn c13_burst_run(c: &BurstVsPaced, paced: bool) -> Option<(Vec<String>, Vec<u16>
     let server = Arc::new(server);
     let n = c.requests;
     let delay = if paced { 0 } else { c.app_delay_ms };
+    if c.one_shot_receivers {
+        return c13_burst_run_one_shot(c, paced, server, &path);
+    }
     let app = {
         let s = server.clone();
         std::thread::spawn(move || {
@@ -1065,6 +1072,84 @@ fn c13_burst_run(c: &BurstVsPaced, paced: bool) -> Option<(Vec<String>, Vec<u16>
     Some((urls, statuses))
 }
 
+/// the same experiment with `n` application threads that are all asleep in recv() when the first
+/// byte arrives and take one request each
+fn c13_burst_run_one_shot(c: &BurstVsPaced, paced: bool, server: Arc<tiny_http::Server>, path: &str) -> Option<(Vec<String>, Vec<u16>)> {
+    let n = c.requests;
+    let urls: Arc<std::sync::Mutex<Vec<String>>> = Arc::new(std::sync::Mutex::new(vec![]));
+    let mut apps = vec![];
+    for _ in 0..n {
+        let (s, u) = (server.clone(), urls.clone());
+        apps.push(std::thread::spawn(move || {
+            if let Ok(rq) = s.recv() {
+                u.lock().unwrap().push(rq.url().to_string());
+                let body = format!("answer to {}", rq.url());
+                let _ = rq.respond(tiny_http::Response::from_string(body));
+            }
+        }));
+    }
+    std::thread::sleep(Duration::from_millis(60));
+    let mut got = vec![];
+    {
+        let mut sock: Box<dyn ReadWriteTimeout> = if c.tcp {
+            let s = std::net::TcpStream::connect(server.server_addr().to_ip()?).ok()?;
+            s.set_read_timeout(Some(Duration::from_secs(4))).ok()?;
+            Box::new(s)
+        } else {
+            let s = std::os::unix::net::UnixStream::connect(path).ok()?;
+            s.set_read_timeout(Some(Duration::from_secs(4))).ok()?;
+            Box::new(s)
+        };
+        for i in 0..n {
+            let last = i + 1 == n;
+            let w = format!("GET /r{} HTTP/1.1\r\nHost: h\r\n{}\r\n", i, if last { "Connection: close\r\n" } else { "" }).into_bytes();
+            if paced {
+                sock.write_all(&w).ok()?;
+                std::thread::sleep(Duration::from_millis(15));
+            } else if i == 0 {
+                let mut all = vec![];
+                for j in 0..n {
+                    all.extend_from_slice(format!("GET /r{} HTTP/1.1\r\nHost: h\r\n{}\r\n", j, if j + 1 == n { "Connection: close\r\n" } else { "" }).as_bytes());
+                }
+                sock.write_all(&all).ok()?;
+            }
+        }
+        let mut buf = [0u8; 4096];
+        loop {
+            match sock.read(&mut buf) {
+                Ok(0) | Err(_) => break,
+                Ok(k) => got.extend_from_slice(&buf[..k]),
+            }
+        }
+    }
+    // whoever is still asleep is released
+    for _ in 0..n {
+        server.unblock();
+    }
+    for a in apps {
+        let _ = a.join();
+    }
+    drop(server);
+    let _ = std::fs::remove_file(path);
+    let mut statuses = vec![];
+    let mut pos = 0;
+    while pos < got.len() {
+        match vcore::respparse::parse_one(&got[pos..], false) {
+            Ok(m) => {
+                pos += m.consumed;
+                statuses.push(m.status);
+            }
+            Err(_) => {
+                statuses.push(0);
+                break;
+            }
+        }
+    }
+    let mut u = urls.lock().unwrap().clone();
+    u.sort();
+    Some((u, statuses))
+}
+
 pub fn c13_burst_test(_w: &mut (), c: &BurstVsPaced) -> Verdict {
     let (Some(a), Some(b)) = (c13_burst_run(c, false), c13_burst_run(c, true)) else { return Verdict::Pass(Good::trivial().class("scenario-not-set-up")) };
     if a != b {
@@ -1075,7 +1160,7 @@ pub fn c13_burst_test(_w: &mut (), c: &BurstVsPaced) -> Verdict {
         }
         return Verdict::Pass(Good::trivial().class("differed-once-not-repeated"));
     }
-    Verdict::Pass(if c.requests >= 9 { Good::nontrivial() } else { Good::trivial() }.class(if c.tcp { "tcp" } else { "unix" }).class(format!("requests={}", c.requests)))
+    Verdict::Pass(if c.requests >= 9 { Good::nontrivial() } else { Good::trivial() }.class(if c.tcp { "tcp" } else { "unix" }).class(format!("requests={}", c.requests)).class_if(c.one_shot_receivers, "one-receiver-per-request-all-asleep-at-the-start"))
 }
 
 // ------------------------------------------------------------------------------------------
